@@ -55,7 +55,8 @@ type State struct {
 	pcSet  map[int]bool
 	noWF   bool
 	stamp  int
-	isPure bool // sub-state of a pure evaluation inside a contract expression (may mention bound variables)
+	wrefs  map[string]map[*Term]bool // during loop write discovery: object references written per cell
+	isPure bool                      // sub-state of a pure evaluation inside a contract expression (may mention bound variables)
 }
 
 func newState() *State {
@@ -77,6 +78,16 @@ func (st *State) clone() *State {
 	n.written = make(map[string]bool, len(st.written))
 	for k, v := range st.written {
 		n.written[k] = v
+	}
+	if st.wrefs != nil {
+		n.wrefs = make(map[string]map[*Term]bool, len(st.wrefs))
+		for k, m := range st.wrefs {
+			nm := make(map[*Term]bool, len(m))
+			for t := range m {
+				nm[t] = true
+			}
+			n.wrefs[k] = nm
+		}
 	}
 	n.stack = make([]*Frame, len(st.stack))
 	for i, f := range st.stack {
@@ -206,6 +217,14 @@ func (st *State) storeLeaf(key string, idx []*Term, v *Term) {
 	a := st.cellArr(key, len(idx), v.S)
 	st.mem[key] = Store(a, idxTerm(idx), v)
 	st.written[key] = true
+	if st.wrefs != nil {
+		m := st.wrefs[key]
+		if m == nil {
+			m = map[*Term]bool{}
+			st.wrefs[key] = m
+		}
+		m[idx[0]] = true
+	}
 }
 
 func pathKey(pi *PtrInfo) (string, []*Term) {
